@@ -297,6 +297,7 @@ func worker() {
 	det := generate(r, func(sc *Scenario) { total++; ch <- sc })
 	close(ch)
 	wg.Wait()
+	extraWorkloads(r, rec)
 	rec.Count("scenarios_total", int64(total))
 	rec.Count("scenarios_deterministic", int64(det))
 	rec.write(resPath, true)
